@@ -1,6 +1,7 @@
 """C02 — rewrites never introduce unbound names (NameError as an observable of the E2 families)."""
 import tv
 from tv import driver
+from vlib.core import fin  # noqa: E402
 
 
 def name_errors(tier_name):
@@ -89,26 +90,69 @@ def mutable_params(default: int, stub_annotated: bool, impl_annotated: bool, has
     return fin(after[0] == "val")
 
 
+def _sast_resolved(names, which: int, style: int, args: int, decoy: int, layout: int) -> bool:
+    from harness import hardsast
+
+    return hardsast.check_kind(hardsast.sel(names, which), style, args, decoy, layout, "unresolved") is None
+
+
+def sast_family_resolved_a(which: int, style: int, args: int, decoy: int, layout: int) -> bool:
+    """Detector-driven hardening family (harness/hardsast.py; one result placed on the call; 4 import styles x argument
+    lists x an identical unreported call / an unrelated call x layouts incl. function bodies): with unresolved(.)
+    computed from CPython's own symbol tables (scope-aware: read, bound neither in an enclosing scope, at module level
+    nor as a builtin), unresolved(run_K(P)) is a subset of unresolved(P) - every module the rewrite starts using is
+    imported, no import a remaining (unreported) call still uses is removed.
+    Codemods: add-requests-timeouts, django-json-response-type, enable-jinja2-autoescape, harden-pyyaml, harden-ruamel,
+    jwt-decode-verify, limit-readline, requests-verify.
+    post: _
+    """
+    from harness.hardsast import SAST_A, SAST_B
+
+    return fin(_sast_resolved(SAST_A + SAST_B[:3], which, style, args, decoy, layout))
+
+
+def sast_family_resolved_b(which: int, style: int, args: int, decoy: int, layout: int) -> bool:
+    """Same: safe-lxml-parser-defaults, safe-lxml-parsing, sandbox-process-creation, secure-flask-cookie.
+    post: _
+    """
+    from harness.hardsast import SAST_B, SAST_C
+
+    return fin(_sast_resolved(SAST_B[3:] + SAST_C[:2], which, style, args, decoy, layout))
+
+
+def sast_family_resolved_c(which: int, style: int, args: int, decoy: int, layout: int) -> bool:
+    """Same: secure-random, upgrade-sslcontext-tls, url-sandbox, fix-deprecated-logging-warn (the import-swapping ones).
+    post: _
+    """
+    from harness.hardsast import SAST_C, SAST_D
+
+    return fin(_sast_resolved(SAST_C[2:] + SAST_D, which, style, args, decoy, layout))
+
+
 def warmup():
     mutable_params(0, True, False, True, False, False)
     import_block_order(7, 0, 0, False)
     import_block_unused(8, 2, 2, True)
     import_block_future(0, 4, 0, False)
+    from harness import hardsast
+
+    for _n in hardsast.ORDER:
+        hardsast.check(_n, 1, 1, 1, 1)
 
 
 SPEC = {
     "property": "C02",
     "level": "translation_validation",
     "files": ["src/core_codemods/invert_boolean_check.py", "src/core_codemods/combine_calls_base.py", "src/core_codemods/combine_startswith_endswith.py", "src/core_codemods/combine_isinstance_issubclass.py"],
-    "functions": ["the complete real pipeline of invert-boolean-check, combine-startswith-endswith, combine-isinstance-issubclass (see C08)", "the complete real pipeline of fix-mutable-params (AddImportsVisitor) on selector-built function definitions", "the complete real pipelines of order-imports, unused-imports and remove-future-imports (codemodder.codemods.transformations.clean_imports / remove_unused_imports) on selector-built import blocks"],
+    "functions": ["the complete real pipeline of invert-boolean-check, combine-startswith-endswith, combine-isinstance-issubclass (see C08)", "the complete real pipeline of fix-mutable-params (AddImportsVisitor) on selector-built function definitions", "the complete real pipelines of order-imports, unused-imports and remove-future-imports (codemodder.codemods.transformations.clean_imports / remove_unused_imports) on selector-built import blocks", "detector-driven hardening family: the complete real transformer chains of 16 semgrep-detected codemods (add_needed_import / remove_unused_import / update_call_target / NameResolutionMixin) with one result placed on the call; unresolved-name oracle from symtable"],
     "bounds": {"quick": "the C08 quick grammar", "thorough": "the C08 thorough grammar"},
     "assumptions": [
         "binding environment fixed by the ORIGINAL program: every name it reads is bound, every other name is unbound; z3 searches runtime values for which the rewritten program evaluates an unbound name (raises NameError) while the original does not",
         "a fresh name in a branch no value assignment reaches is not reported (never a false alarm)",
     ],
     "stubs": ["FileContext with a non-existent path"],
-    "outside": ["import insertion by codemods other than fix-mutable-params and the four of C16's hardening family", "RemoveUnusedVariables, sql-parameterization clean-up", "function / class scopes (need whole-transformer runs with scope metadata; nothing symbolic remains once the program is concrete)"],
+    "outside": ["import insertion by codemods outside the families listed under functions", "RemoveUnusedVariables, sql-parameterization clean-up", "class scopes, nested functions deeper than one level"],
     "rule": "as C08; the query is restricted to outcome kind NameError",
     "drivers": [name_errors],
-    "xh": [__import__("vlib.main", fromlist=["Xh"]).Xh(fn, 500, 900) for fn in ("import_block_order", "import_block_unused", "import_block_future")] + [__import__("vlib.main", fromlist=["Xh"]).Xh("mutable_params", 300, 600)],
+    "xh": [__import__("vlib.main", fromlist=["Xh"]).Xh(fn, 500, 900) for fn in ("import_block_order", "import_block_unused", "import_block_future")] + [__import__("vlib.main", fromlist=["Xh"]).Xh("mutable_params", 300, 600)] + [__import__("vlib.main", fromlist=["Xh"]).Xh(fn, 500, 900) for fn in ("sast_family_resolved_a", "sast_family_resolved_b", "sast_family_resolved_c")],
 }
